@@ -262,6 +262,18 @@ func TestCheck(t *testing.T) {
 			do(c)
 		}
 	}
+	// a missing file in a sub-directory while an intact, different protected file with the same base name, length and first
+	// 16 KiB sits beside the index (and the other way round); an unrelated bystander with that base name as well
+	for k := 0; k < 4; k++ {
+		if !cfg.Mine(300 + k) {
+			continue
+		}
+		rec.Class("same-base-name-in-two-directories")
+		files := []scen.FileSpec{{Name: "old/report.doc", Size: 20000 + 7*k, Kind: "share16k", Seed: 3}, {Name: "report.doc", Size: 20000 + 7*k, Kind: "share16k", Seed: 6}, {Name: "c.bin", Size: 100, Kind: "random", Seed: 9}}
+		c := scen.Case{Files: files, Slice: 1000, NRec: 24, GCreate: 2, GRepair: 1 + k%2, DoubleCheck: k%2 == 0, Bystanders: k >= 2,
+			Damage: []scen.Damage{{Op: "delete", File: k % 2}}}
+		do(Case{P2: &c})
+	}
 	cfg.SetRapid(cfg.N(500, 7000), 1)
 	rapid.Check(t, func(rt *rapid.T) {
 		if !do(Case{P2: gen2(rt)}) {
